@@ -77,6 +77,10 @@ func (p *stubBomb) OnTerminate() {
 	p.impl.OnTerminate()
 }
 func (p *stubBomb) Receive(msg *net.Message, from bus.Channel) error {
+	// only call and post messages run a method
+	if msg.Header.Type != net.Call && msg.Header.Type != net.Post {
+		return nil
+	}
 	// action dispatch
 	switch msg.Header.Action {
 	default:
@@ -198,6 +202,10 @@ func (p *stubSpacecraft) OnTerminate() {
 	p.impl.OnTerminate()
 }
 func (p *stubSpacecraft) Receive(msg *net.Message, from bus.Channel) error {
+	// only call and post messages run a method
+	if msg.Header.Type != net.Call && msg.Header.Type != net.Post {
+		return nil
+	}
 	// action dispatch
 	switch msg.Header.Action {
 	case 100:
